@@ -52,6 +52,8 @@ impl Flusher {
 
         // Use async I/O for directory creation
         fs::create_dir_all(&segment_dir).await?;
+        #[cfg(sneldb_verif)]
+        crate::verif_hooks::step_async("flusher.mkdir").await;
 
         // Move events out of the MemTable without cloning
         let table = self.memtable.take(); // BTreeMap<String, Vec<Event>> grouped by context_id
@@ -110,6 +112,8 @@ impl Flusher {
             .filter_map(|(et, evs)| if evs.is_empty() { None } else { Some(et) })
             .collect();
         if !non_empty_event_types.is_empty() {
+            #[cfg(sneldb_verif)]
+            crate::verif_hooks::step_async("flusher.before_index").await;
             let uids =
                 Self::resolve_uids_with(&registry, non_empty_event_types.into_iter()).await?;
             SegmentIndexBuilder {
@@ -181,6 +185,8 @@ impl Flusher {
 
         let writer = ZoneWriter::new(&uid, segment_dir, registry.clone());
         writer.write_all(&zone_plans).await?;
+        #[cfg(sneldb_verif)]
+        crate::verif_hooks::step_async("flusher.type_written").await;
 
         Ok(())
     }
